@@ -30,6 +30,28 @@ CLAIMED: dict[str, tuple[str, str, str, str, str]] = {
         "table/forwarding agreement lint over the syntax tree (sibling cross-check)",
         "DESIGN §5 C21",
     ),
+    "C22": (
+        "other",
+        "Decides that every enforcement point of comptime ownership exists on every path and tests the right flags: "
+        "frozenlist overrides all list mutators with must-raise bodies; frozen struct objects cannot be stored into; the "
+        "frozen flag is threaded through unpacking and equals 'not borrowed'; _use_wire raises iff used and not copyable and "
+        "records uses; undroppable objects are registered and a leak check dominates set_outputs; only allow-listed "
+        "functions read _wire / reset _used.",
+        "Trusted: ast parser, the list-mutator table (Python language fact), lexical guard extraction (if/elif/else + early "
+        "exits) as a necessary condition for reaching a statement. Not decided: what tracing produces.",
+        "exhaustiveness table + must-raise/dominance on a per-function CFG + guard truth tables + who-may-access lint",
+        "DESIGN §5 C22",
+    ),
+    "C23": (
+        "other",
+        "Decides the save/restore pairing of mock_builtins (keys written == keys restored/deleted, old values captured before "
+        "the update, restore in finally around the yield), that no other tracing-time function writes user namespaces, and "
+        "that the traced function runs inside mock_builtins of the same function object.",
+        "Trusted: ast parser; namespace writes are recognised syntactically through __globals__/f_globals/f_locals/__dict__ "
+        "attributes (subscript stores, del, update/pop/setdefault/clear).",
+        "save/restore pairing on the CFG shape + who-may-write lint over all functions",
+        "DESIGN §5 C23",
+    ),
 }
 
 NOT_APPLICABLE: dict[str, str] = {
